@@ -158,7 +158,10 @@ pub fn run(cfg: &Cfg) -> i32 {
     rep.assumptions.push("single-threaded, deterministic code: exact equality of live bytes is expected once lazily initialised statics exist (first cycle is the warm-up)".into());
     let n_cycles = cfg.pick(6, 20);
     let mut sampled = 0;
-    for c in stories(cfg) {
+    for (si, c) in stories(cfg).into_iter().enumerate() {
+        if !cfg.mine(si as u64) {
+            continue;
+        }
         for variant in 0..2u64 {
             // warm-up
             let r = std::panic::catch_unwind(std::panic::AssertUnwindSafe(|| cycle(&c, cfg.seed, variant)));
